@@ -109,7 +109,47 @@ def rule_final_block(ctx, cfg, r, r_full=None, r_one_final=None):
         rr = [x for x in ev.run(cf) if x.outcome[0] == "return"]
         if len(rr) == 1 and rr[0].ret and rr[0].ret[0] == "len":
             lenclosure = cid
+    def gate_facts(row):
+        fl = vs(row, t["flush"])
+        facts_ok = []
+        facts_ok.append(("flush≠None", not fl.contains(TF["None"])))
+        la = [x for x in loads_of(row, "lookahead_size", "DictOxide") if x[2] != 0]
+        facts_ok.append(("lookahead_size==0", any(vs(row, x).single() == 0 for x in la)))
+        fr = [x for x in loads_of(row, "flush_remaining", "ParamsOxide") if x[2] != 0]
+        facts_ok.append(("flush_remaining==0", any(vs(row, x).single() == 0 for x in fr)))
+        # in_left = map_or(in_buf, 0, |b| b.len()) - src_pos
+        inl = False
+        for a, s in row.atoms:
+            for st in paths.subterms(a):
+                if st[0] == "bin" and st[1] == "Sub" and st[2][0] == "call" and st[2][1].endswith("map_or") and \
+                        paths.is_load_of(st[3], "src_pos", "ParamsOxide") and st[3][2] != 0:
+                    m = st[2]
+                    cl = m[2][2]
+                    if is_const(m[2][1]) and const_val(m[2][1]) == 0 and cl[0] == "closure" and cl[1] == lenclosure and \
+                            paths.is_load_of(m[2][0], "in_buf", "CallbackOxide") and vs(row, st).single() == 0:
+                        inl = True
+        facts_ok.append(("in_left==0", inl))
+        return facts_ok
+    def legit_skip(row):
+        """why a row that ran a compress routine may return without the final flush_block"""
+        fl = vs(row, t["flush"])
+        if fl.single() == TF["None"]:
+            return "flush == None"
+        for a, s in row.atoms:
+            if a[0] == "call" and any(paths._sfx(a[1], q) for q in COMPRESS_ROUTINES) and s.single() == 0:
+                return "the compress routine reported failure / suspension"
+            if a[0] == "bin" and a[1] == "Eq" and is_const(a[3]) and const_val(a[3]) == 0 and paths.is_load_of(a[2], "lookahead_size", "DictOxide") and \
+                    a[2][2] != 0 and s.single() == 0:
+                return "lookahead not empty"
+            if a[0] == "bin" and a[1] == "Ne" and is_const(a[3]) and const_val(a[3]) == 0 and s.single() == 1:
+                if paths.is_load_of(a[2], "flush_remaining", "ParamsOxide") and a[2][2] != 0:
+                    return "output pending"
+                st = a[2]
+                if st[0] == "bin" and st[1] == "Sub" and st[2][0] == "call" and st[2][1].endswith("map_or") and paths.is_load_of(st[3], "src_pos", "ParamsOxide"):
+                    return "input left"
+        return None
     n_fb = 0
+    n_live = 0
     for row in rows:
         if row.outcome[0] != "return":
             continue
@@ -129,24 +169,7 @@ def rule_final_block(ctx, cfg, r, r_full=None, r_one_final=None):
                     r_one_final.fail(fn, "final-flush-arg", "final flush_block is not given the requested flush: %s" % tstr(call[2][2]))
             elif r_one_final:
                 r_one_final.ok(fn, "final-flush-arg", "flush_block(d, callback, flush)")
-            facts_ok = []
-            facts_ok.append(("flush≠None", not fl.contains(TF["None"])))
-            la = [x for x in loads_of(row, "lookahead_size", "DictOxide") if x[2] != 0]
-            facts_ok.append(("lookahead_size==0", any(vs(row, x).single() == 0 for x in la)))
-            fr = [x for x in loads_of(row, "flush_remaining", "ParamsOxide") if x[2] != 0]
-            facts_ok.append(("flush_remaining==0", any(vs(row, x).single() == 0 for x in fr)))
-            # in_left = map_or(in_buf, 0, |b| b.len()) - src_pos
-            inl = False
-            for a, s in row.atoms:
-                for st in paths.subterms(a):
-                    if st[0] == "bin" and st[1] == "Sub" and st[2][0] == "call" and st[2][1].endswith("map_or") and \
-                            paths.is_load_of(st[3], "src_pos", "ParamsOxide") and st[3][2] != 0:
-                        m = st[2]
-                        cl = m[2][2]
-                        if is_const(m[2][1]) and const_val(m[2][1]) == 0 and cl[0] == "closure" and cl[1] == lenclosure and \
-                                paths.is_load_of(m[2][0], "in_buf", "CallbackOxide") and vs(row, st).single() == 0:
-                            inl = True
-            facts_ok.append(("in_left==0", inl))
+            facts_ok = gate_facts(row)
             missing = [n for n, okk in facts_ok if not okk]
             if missing:
                 r.fail(fn, "final-gate", "final flush_block reached without %s: %s" % (", ".join(missing), row.describe(40)))
@@ -202,8 +225,19 @@ def rule_final_block(ctx, cfg, r, r_full=None, r_one_final=None):
             fins = store_to_field(row, "finished", "ParamsOxide")
             if fins:
                 r.fail(fn, "finished-without-final", "finished is written on a row without the final flush_block: %s" % row.describe())
+            # ... and the gate is exact: once a compress routine has run, a flush request with nothing left to compress and nothing
+            # pending always reaches flush_block (otherwise the requested flush point is silently not produced)
+            if work and not legit_skip(row):
+                r.fail(fn, "final-gate-live", "a call that ran the compress routine returns without the final flush_block for a reason other than "
+                       "flush == None, a failed / suspended compress routine, a non-empty lookahead, input left or output pending: the block / "
+                       "flush marker asked for is silently not emitted: %s" % row.describe(40),
+                       where=first_span(row))
+            elif work:
+                n_live += 1
     if n_fb == 0:
         r.fail(fn, "no-final-block", "no row of compress_inner reaches flush_block")
+    if n_live:
+        r.ok(fn, "final-gate-live", "%d rows that skip the final flush_block each have flush == None, a non-empty lookahead, input left or output pending" % n_live)
 
 
 def rule_done_origin(ctx, cfg, r):
